@@ -41,19 +41,19 @@ class Zygote:
             raise RuntimeError("zygote died")
         return json.loads(line)
 
-    def concurrent(self, descs, schedule=(), loc_points=(), opcode=False):
+    def concurrent(self, descs, schedule=(), loc_points=(), opcode=False, third_party=False):
         """Run calls concurrently under a schedule in a fork of the pristine zygote (cold library state)."""
         self.p.stdin.write(json.dumps({"concurrent": {"calls": descs, "schedule": list(schedule), "loc_points": list(loc_points),
-                                                      "opcode": opcode}}) + "\n")
+                                                      "opcode": opcode, "third_party": third_party}}) + "\n")
         self.p.stdin.flush()
         line = self.p.stdout.readline()
         if not line:
             raise RuntimeError("zygote died")
         return json.loads(line)
 
-    def trace(self, desc):
+    def trace(self, desc, third_party=False):
         """Distinct library locations a call passes when it is the first call of a fresh process."""
-        self.p.stdin.write(json.dumps({"trace": desc}) + "\n")
+        self.p.stdin.write(json.dumps({"trace": desc, "third_party": third_party}) + "\n")
         self.p.stdin.flush()
         line = self.p.stdout.readline()
         if not line:
@@ -93,14 +93,16 @@ def _serve():
                     try:
                         outs, info = sched.run_concurrently([(lambda d=d: calls.outcome(d)) for d in c["calls"]],
                                                             [tuple(x) for x in c["schedule"]], repo, c.get("opcode", False),
-                                                            loc_points=[tuple(x) for x in c.get("loc_points", [])])
+                                                            loc_points=[tuple(x) for x in c.get("loc_points", [])],
+                                                            third_party=c.get("third_party", False))
                         data = json.dumps({"outcomes": outs, "switches": info["switches"], "steps": info["steps"]}).encode()
                     except sched.SchedulerError as e:
                         data = json.dumps({"error": str(e)}).encode()
                 elif "trace" in desc:
                     from vlib.engines import sched
-                    out, locs = sched.trace_locations(lambda: calls.outcome(desc["trace"]), repo)
-                    data = json.dumps({"outcome": out, "locs": locs}).encode()
+                    out, locs, counts = sched.trace_location_counts(lambda: calls.outcome(desc["trace"]), repo,
+                                                                    desc.get("third_party", False))
+                    data = json.dumps({"outcome": out, "locs": locs, "counts": counts}).encode()
                 else:
                     data = json.dumps(calls.outcome(desc)).encode()
                 os.write(w, data)
